@@ -143,8 +143,10 @@ def extract(src_root):
 
     attempt('path_segment_safe', lambda: _str(m.const('PATH_SEGMENT_SAFE')))
 
-    def lru(fname):
+    def lru(fname, may_be_plain=False):
         node = m.find(fname)
+        if node is not None and may_be_plain and not node.decorator_list:
+            return 0            # not memoised at all: a memo table bounded by 0 entries never holds anything
         if node is None or len(node.decorator_list) != 1:
             raise Unknown('decorators of %s' % fname)
         d = node.decorator_list[0]
@@ -155,7 +157,9 @@ def extract(src_root):
         raise Unknown('decorator of %s: %s' % (fname, ast.unparse(d)))
     attempt('lru_split_path_info', lambda: lru('split_path_info'))
     attempt('lru_traversal_path_info', lambda: lru('traversal_path_info'))
-    attempt('lru_join_path_tuple', lambda: lru('_join_path_tuple'))
+    # since the repair 883ea66 _join_path_tuple is a plain function (the tuple-level lru collided on 1 / 1.0 / True);
+    # both texts are recognised, the bound 0 stands for "no memoisation"
+    attempt('lru_join_path_tuple', lambda: lru('_join_path_tuple', may_be_plain=True))
 
     try:
         mi = F.Module(src_root, 'pyramid/interfaces.py')
@@ -386,6 +390,8 @@ TRAVERSAL_BINDINGS = {
     'ResourceTreeTraverser': ['class'], 'PATH_SEGMENT_SAFE': ['assign'], '_segment_cache': ['assign'],
     'find_model': ['assign'], 'ModelGraphTraverser': ['assign'],
 }
+MODULE_ASSIGNED = ('ModelGraphTraverser', 'PATH_SAFE', 'PATH_SEGMENT_SAFE', '_model_path_list', '_segment_cache',
+                   'find_model', 'model_path', 'model_path_tuple')
 BUILTINS_USED = ('str', 'bytes', 'tuple', 'len', 'isinstance', 'hasattr', 'KeyError', 'AttributeError',
                  'UnicodeDecodeError')
 
@@ -400,6 +406,18 @@ def check_environment(src_root, problems, summary):
             if binds.get(nm, []) != want:
                 problems.append('module-level binding of %s in traversal.py is %s, expected %s'
                                 % (nm, binds.get(nm) or 'missing', want))
+        # no module-level state beyond the known caches / constants / aliases: every name bound by an assignment (or
+        # deleted) at module level of traversal.py is one of these (a new module-level variable could carry state
+        # from one traversal into another, or into a traversal nested inside an item lookup)
+        assigned = sorted(k for k, v in binds.items() if 'assign' in v or 'del' in v)
+        if assigned != sorted(MODULE_ASSIGNED):
+            problems.append('module-level assignments of traversal.py are %s, expected %s' % (assigned, sorted(MODULE_ASSIGNED)))
+        for st in m.tree.body:
+            if isinstance(st, (ast.Global, ast.Nonlocal)):
+                problems.append('global statement at module level of traversal.py')
+        for fn in ast.walk(m.tree):
+            if isinstance(fn, ast.Global):
+                problems.append('traversal.py: `global %s` inside a function' % ', '.join(fn.names))
         for nm in BUILTINS_USED:
             if binds.get(nm):
                 problems.append('builtin %s is rebound at module level in traversal.py' % nm)
